@@ -294,6 +294,20 @@ Theorem C13_independent2_history_partial :
   Sealed P PM PF w' /\ Same P PM PF w w'.
 Proof. exact independent_history2. Qed.
 
+(* LinkBound, the state hypothesis of the two-sided theorems: its node part is C03's TreeInv; it adds that index values
+   are allocated and that file records name existing models.  It holds in the empty world. *)
+Theorem C13_linkbound_of_treeinv : forall w,
+  TreeInv w ->
+  (forall m x, nth_opt (w_models w) (N.to_nat m) = Some x ->
+     (forall p j, In (p, j) (m_idents x) -> j < w_next w) /\
+     (forall p l j, In (p, l) (m_origins x) -> In j l -> j < w_next w)) ->
+  (forall f fl, nth_opt (w_files w) (N.to_nat f) = Some fl -> f_model fl < N.of_nat (List.length (w_models w))) ->
+  LinkBound w.
+Proof. exact LinkBound_of_TreeInv. Qed.
+
+Theorem C13_linkbound_empty : LinkBound empty_world.
+Proof. exact LinkBound_empty. Qed.
+
 (* TWO SIDES (Tree/CopyProofsTwo.v).  sides: two regions A and B that partition the allocated node ids, the model
    numbers and the file ids; Two s w: each is Sealed against the other.  A history is a list of operations of op2
    (OpLoad excluded), each tagged with the side it works on (OnA / OnB: its handles, models and files are apart from
